@@ -67,7 +67,7 @@ impl SchedSpec {
             weak_cas: *rng.pick(&[0, 0, 16, 64, 200]),
             stall: *rng.pick(&[0, 0, 8, 32]),
             starvation: *rng.pick(&[64, 200, 600]),
-            step_cap: 40_000,
+            step_cap: 100_000,
             op_step_bound: 0,
             origin: 0,
         }
@@ -248,6 +248,21 @@ pub fn fault_fired(name: &'static str) {
 /// harness-side randomness (same stream as the scheduler's: one integer decides everything)
 pub fn draw_below(n: u64) -> u64 {
     with_ctx(|c| c.fault_rng.below(n)).unwrap_or(0)
+}
+
+/// interns a (bounded set of) operation names built at run time, so that they can be used as `op_mark` names
+pub fn intern(s: String) -> &'static str {
+    use std::collections::HashSet;
+    use std::sync::Mutex;
+    static NAMES: Mutex<Option<HashSet<&'static str>>> = Mutex::new(None);
+    let mut g = NAMES.lock().unwrap();
+    let set = g.get_or_insert_with(HashSet::new);
+    if let Some(k) = set.get(s.as_str()) {
+        return k;
+    }
+    let leaked: &'static str = Box::leak(s.into_boxed_str());
+    set.insert(leaked);
+    leaked
 }
 
 /// Declares that the calling simulated task starts (name != "") or ends (name == "") an operation whose own
@@ -466,6 +481,16 @@ impl RunCtx {
         self.cur = chosen;
         Some(chosen)
     }
+}
+
+/// Stops the run from harness code (never call from a destructor): the calling simulated thread unwinds, nobody else runs again
+pub fn abort_run(reason: String) -> ! {
+    with_ctx(|c| {
+        if c.aborted.is_none() {
+            c.aborted = Some(reason);
+        }
+    });
+    abort_now()
 }
 
 fn abort_now() -> ! {
